@@ -26,6 +26,9 @@ CHECKS = {
  "C03": dict(engine="simrt+simnet+modelredis", cat="exploration", ref="DESIGN.md 5/C03",
    text="Seeded search over source command streams x filters x sender thresholds x release timing around the flush ticker x network profile x schedules, with the real DbSyncer pipeline between a master model and a target model; the target's applied-command log must equal the reference filter of the stream, and every command must arrive within a bounded simulated time.",
    tech="deterministic simulation: full sync pipeline under a tape-driven scheduler, simulated TCP/clock, master+target reference models, reference filter as oracle"),
+ "C08": dict(engine="simrt+simnet+modelredis", cat="exploration", ref="DESIGN.md 5/C08",
+   text="Seeded search over traffic histories spanning several ACK ticks, start offsets, and up to two cuts of the replication link at tape-chosen stream positions with refused re-dials; the oracle reads the tool's own REPLCONF ACK / PSYNC writes together with the exact number of bytes its reads had returned, and checks end-to-end stream continuity and checkpoint offsets.",
+   tech="deterministic simulation: recorded simulated transport (byte-exact read/write events), link-cut fault injection, master/target models"),
  "C18": dict(engine="simrt", cat="exploration", ref="DESIGN.md 5/C18",
    text="Seeded search over writer/reader/closer scripts and lock-granularity interleavings of the real backlog ring against an absolute-offset log model (interval semantics for in-flight writes), with lost-wake-up analysis at quiescence.",
    tech="deterministic simulation: tape-driven baton scheduler over instrumented locks/conds + absolute-offset log model"),
